@@ -8,6 +8,7 @@
    class `deep`. The classes listed in `deepSet` are reported as `deep` as well (same table as the harness). -/
 import MW.Model.Api
 import MW.Model.ApiLedger
+import MW.Model.ApiFollow
 import MW.Model.Amount
 import MW.Drv.Led
 namespace MW.Drv.Api
@@ -238,24 +239,10 @@ def outOf (st : St) (tx : String) (vout : Nat) : Option Out :=
   | some t => t.outs[vout]?
   | none => none
 
-/-- TxStore.ExistsUtxo: 0 = found unspent, 1 = found spent, 2 = not found / error -/
+/-- TxStore.ExistsUtxo: 0 = found unspent, 1 = found spent, 2 = not found / error (MW.Model.ApiLedger.existsUtxo, the
+    function the ghost-state contract theorem MW.Props.C19.contract_ledger_ExistsUtxo_partial is about) -/
 def existsUtxo (st : St) (tx : String) (vout : Nat) : Nat :=
-  let cur := st.cur.getD ""
-  match AMap.get st.led.store.unspent (cur, tx, vout) with
-  | some blk =>
-    match AMap.get st.led.store.credits ⟨tx, blk, vout⟩ with
-    | some c => if c.spent then 2 else 0
-    | none => 2
-  | none =>
-    let cs := st.led.store.credits.filter (fun e => e.1.tx = tx)
-    match cs.find? (fun e => e.1.idx = vout) with
-    | some e => if e.2.spent then 1 else 2
-    | none =>
-      if cs.isEmpty then
-        match AMap.get st.led.store.pendCred (tx, vout) with
-        | some c => if c.spent then 2 else 0
-        | none => 2
-      else 2
+  Model.ApiLedger.existsUtxo st.led.store (st.cur.getD "") tx vout
 
 def ownedByCur (st : St) (o : Out) : Bool :=
   o.cls != .raw && (match AMap.get st.led.own o.addr with | some (w, _) => some w = st.cur | none => false)
@@ -523,10 +510,7 @@ def oracle (st : St) (r : Req) : Oracle := fun f σ =>
   | "w.txStore.ExistUnminedTx" =>
     Model.ApiLedger.existUnminedAnswer Model.Api.E.notFound (pendingTx st curIn.1)
   | "w.txStore.ExistsUtxo" =>
-    match existsUtxo st curIn.1 curIn.2 with
-    | 0 => [1, 0]
-    | 1 => [1, 0]
-    | _ => [0, Model.Api.E.notFound]
+    Model.ApiLedger.existsUtxoAnswer Model.Api.E.notFound (existsUtxo st curIn.1 curIn.2)
   | "flags.Spent" => [b2n (existsUtxo st curIn.1 curIn.2 = 1)]
   | "cache[txIn.PreviousOutPoint.Hash]" =>
     -- a previous transaction seen at an earlier input of the same request
@@ -645,7 +629,14 @@ def applyCall (st : St) (r : Req) (cls : String) : St :=
     | none => st
   | "RemoveWallet" =>
     match walletOfTok r.wid with
-    | some w => if cls = "ok" then { st with removing := st.removing ++ [w] } else st
+    | some w =>
+      if cls = "ok" then
+        -- MarkDeleteWallet: the status record carries the removal flag; the follower no longer counts the wallet as ready
+        let status := match AMap.get st.led.store.status w with
+          | some ws => AMap.put st.led.store.status w { ws with removed := true }
+          | none => st.led.store.status
+        { st with removing := st.removing ++ [w], led := { st.led with store := { st.led.store with status := status } } }
+      else st
     | none => st
   | "ImportWallet" =>
     if cls = "ok" && (r.arg 0).startsWith "ks:" then
@@ -693,6 +684,12 @@ def walletsView (st : St) : String :=
 def usesWallet (op : String) : Bool :=
   ["addr", "bal", "abal", "utxos", "sbu", "addrs", "shist", "bhist", "hsbu", "shistp", "bhistp", "wseq"].contains op
 
+/-- model column of a delivery: the ledger model's class, marked when the follower skeleton run ends in another one -/
+def withSkel (o : String) (skel : String) : String :=
+  let (m, rest) := splitOn1 o '\t'
+  if m = skel then o else
+  (m ++ "|skel:" ++ skel.replace " " "_") ++ (if o.contains '\t' then "\t" ++ rest else "")
+
 def baseStep (st : St) (args : List String) : St × String :=
   match args with
   | ["wallets"] => (st, walletsView st)
@@ -704,16 +701,30 @@ def baseStep (st : St) (args : List String) : St × String :=
     let (l, o) := Led.step st.led args
     ({ st with led := l, apiWallets := if o = "ok" then st.apiWallets ++ [w] else st.apiWallets }, o ++ "\t" ++ o)
   | ["addr", w, _, _] =>
+    -- WEnv.NewAddr selects the wallet first: refused while it is being removed / imported
+    if st.cur != some w && st.led.wallets.contains w && !readyWallet st w then (st, "err\terr") else
     let st1 := useEffect st w
     let (l, o) := Led.step st1.led args
     ({ st1 with led := l }, o ++ "\t" ++ o)
   | ["tx", t, u, ins, outs] =>
     let (l, o) := Led.step st.led ["tx", t, u, ins, scaleOuts outs]
     ({ st with led := l }, o)
-  | ["recvtx", _] =>
+  | ["recvtx", t] =>
     -- spec of the follower's unconfirmed path: the transaction is processed to a result (no panic)
     let (l, o) := Led.step st.led args
+    -- the follower SKELETON (tail of proccessReceivedTx: getReadyWallets, filterTx) run with the oracle answered from
+    -- the ledger model must end in the same class as the ledger model (and as the real follower)
+    let o := match AMap.get st.led.txs t with
+      | some tx => withSkel o (Model.ApiFollow.recvClass (Led.ctx st.led) st.led.store st.led.vol tx)
+      | none => o
     ({ st with led := l }, if o.contains '\t' then o else o ++ "\t" ++ o)
+  | ["notify", b] =>
+    let (l, o) := Led.step st.led args
+    -- the same for processConnectedBlock (extend / reorg; disconnectBlock, filterBlock, filterTx, …)
+    let o := match AMap.get st.led.node.known b with
+      | some blk => withSkel o (Model.ApiFollow.blockClass (Led.ctx st.led) st.led.store st.led.vol blk)
+      | none => o
+    ({ st with led := l }, o)
   | op :: w :: _ =>
     let st1 := if usesWallet op then useEffect st w else st
     let (l, o) := Led.step st1.led args
@@ -748,18 +759,28 @@ def step (st : St) (args : List String) : St × String :=
     (st, "done\tdone")
   -- spec of the worker steps: they complete (a panic or a hang is a violation with this history as replay)
   | ["rmrun", w] =>
+    -- the asyncRemove skeleton (one finishing round) must end in the class of the real worker run
     ({ st with removing := st.removing.filter (· != w), gone := st.gone ++ [w],
-               cur := if st.cur = some w then none else st.cur }, "ok\tok")
+               cur := if st.cur = some w then none else st.cur }, withSkel "ok\tok" Model.ApiFollow.removeClass)
   | ["impstep", w] =>
     -- spec of the worker step: the harness first delivers the node's tip to the follower (asyncImport refuses a
     -- batch with ErrImportingContinuable while the follower is on another branch than the node), then one
     -- batch runs and, on these short chains, finishes; a panic, a hang or an error is a violation
-    ({ st with importing := st.importing.filter (· != w) }, "fin\tfin")
+    -- the asyncImport skeleton, what it scans answered from the node's chain and the keystore view
+    -- (MW.Model.Import.plan / filterTxForImporting), must end without error as the real batch does
+    let sk := Model.ApiFollow.importClass st.led.node st.led.own w
+    ({ st with importing := st.importing.filter (· != w) }, withSkel "fin\tfin" (if sk = "ok" then "fin" else sk))
   | ["cur"] => (st, st.cur.getD "-")
   | "x" :: rest =>
     -- robust mode: only "no panic" is observed; wallet selection side effects are still tracked
     match rest with
     | "call" :: m :: a => (doCall st m a |> fun s => { s with last := st.last }, "done\tdone")
+    -- node-side ops and address issue keep the node / keystore view current (the worker skeletons are answered from it)
+    | ["tx", t, u, ins, outs] => ({ st with led := (Led.step st.led ["tx", t, u, ins, scaleOuts outs]).1 }, "done\tdone")
+    | "block" :: _ | "submit" :: _ | ["detach"] | "params" :: _ => ({ st with led := (Led.step st.led rest).1 }, "done\tdone")
+    | ["addr", w, a, cl] =>
+      let st1 := useEffect st w
+      ({ st1 with led := { st1.led with own := (Led.step st1.led ["addr", w, a, cl]).1.own } }, "done\tdone")
     | op :: w :: _ => (if usesWallet op then useEffect st w else st, "done\tdone")
     | ["restart"] => ({ st with cur := none }, "done\tdone")
     | _ => (st, "done\tdone")
